@@ -928,7 +928,7 @@ def _slice(self, start_operands, control=True, start_bb=None, mut_flows=False):
       locals: set of locals visited
     """
     res = {"args": set(), "fields": set(), "calls": set(), "callees": [], "consts": set(),
-           "upvars": set(), "locals": set(), "named": set()}
+           "upvars": set(), "locals": set(), "named": set(), "roots": set()}
     defs = self.defs()
     work = []
     seen_bb = set()
@@ -948,6 +948,8 @@ def _slice(self, start_operands, control=True, start_bb=None, mut_flows=False):
         names = tuple(e["n"] if e.get("n") is not None else str(e.get("f")) for e in pl["p"] if isinstance(e, dict) and "f" in e)
         for n in names:
             res["fields"].add(n)
+        if names:
+            res["roots"].add((l, names))
         for e in pl["p"]:
             if isinstance(e, dict) and "idx" in e:
                 work.append(e["idx"])
